@@ -169,6 +169,15 @@ def run(tier):
         for pos in range(len(t) + 1):
             for b in (list(range(0x7f, 0x100)) if full or pos % 3 == 0 else [0x7f, 0x80, 0xc3, 0xff]):
                 bad.append(("hibyte", t[:pos] + chr(b) + t[pos:], {"pos": pos, "byte": b, "tmpl": t}))
+    # multi-byte sequences a text editor may put into a file: byte order marks and UTF-8 characters, at the start of the line (where
+    # a lenient reader might "skip a BOM"), after leading blanks, between tokens and at the end; also in front of an EMPTY line
+    SEQS = ["\xef\xbb\xbf", "\xff\xfe", "\xfe\xff", "\xc3\xa9", "\xe2\x80\x94", "\xe2\x80\x8b", "\xc2\xa0", "\xf0\x9f\x98\x80", "\xef\xbb", "\xbb\xbf", "\xef\xbb\xbf\xef\xbb\xbf"]
+    for t in TEMPLATES + ["", "ret", "vpaddb xmm1, xmm2, xmm3"]:
+        sp = t.find(" ")
+        for sq in SEQS:
+            for pos in sorted(set([0, len(t)] + ([sp, sp + 1] if sp > 0 else []))):
+                bad.append(("hiseq", t[:pos] + sq + t[pos:], {"pos": pos, "seq": sq.encode("latin-1").hex(), "tmpl": t}))
+            bad.append(("hiseq", " \t" + sq + t, {"pos": -1, "seq": sq.encode("latin-1").hex(), "tmpl": t}))
     # control bytes (outside printable ASCII as well; tab, CR and LF are blanks / line ends) at every position
     for t in TEMPLATES:
         for pos in range(len(t) + 1):
@@ -230,7 +239,7 @@ def run(tier):
     v.cov["rule"] = ("(i) every spec mnemonic x every operand-kind tuple over {scalar reg, xmm, ymm, memory, immediate} with 0-4 operands (781 tuples); a tuple is 'not defined in x86-64' iff nasm rejects ALL its "
                      "instantiations (live referee, %d lines this run), then instantiated for the library; (ii) every one-character edit of every register name that is lexically a name and not a register/keyword, in "
                      "register, memory-base and index positions; (iii) scales 0,3,5,6,7,9,10,16,42 in both factor orders; the stack pointer as scaled index, as index of itself, with every base; 8/16-bit, MMX, XMM and YMM registers as base or index and base/index of different widths; (iv) bracket / comma / "
-                     "operand-after-immediate / empty-operand / unknown-mnemonic syntax errors; (v) bytes 0x7f-0xff and control bytes 0x01-0x1f (except tab, CR, LF) at positions of 8 template lines, printable non-token characters inside mnemonics and register names; (vi) lines of (i)-(iv) behind 1-3 junk characters (every printable non-letter except ';', '%%' and ':'). Each alone and first/middle/last in a program with valid neighbours, "
+                     "operand-after-immediate / empty-operand / unknown-mnemonic syntax errors; (v) bytes 0x7f-0xff, byte order marks and UTF-8 sequences at line start / between tokens / line end, and control bytes 0x01-0x1f (except tab, CR, LF) at positions of 8 template lines, printable non-token characters inside mnemonics and register names; (vi) lines of (i)-(iv) behind 1-3 junk characters (every printable non-letter except ';', '%%' and ':'). Each alone and first/middle/last in a program with valid neighbours, "
                      "option combos sampled. Oracle: rc == EXIT_FAILURE and no byte at or after the rejected line's start differs from the prefill" % nnasm)
     v.cov["exhaustive"] = False
     v.cov.update(stats)
